@@ -26,8 +26,21 @@ def _items(m):
     return {k: v for k, v in dict.items(m)}
 
 
+def _coerce_terms(terms, ctype):
+    """real coefficients of a numeric type that is not int / float (the property says: real coefficients)"""
+    if not ctype:
+        return terms
+    import fractions
+    import numpy as np
+    conv = {"fraction": lambda v: fractions.Fraction(v).limit_denominator(64), "np_int64": lambda v: np.int64(round(4 * v)),
+            "np_float64": np.float64, "np_float32": np.float32,
+            # what subvalue / subgraph leave behind: numpy integers for folded terms next to floats
+            "mixed_np": lambda v: np.int64(round(4 * v)) if float(4 * v).is_integer() and abs(v) >= 1 else np.float64(v)}[ctype]
+    return {k: conv(v) for k, v in terms.items()}
+
+
 def _build(case):
-    terms = case["terms"]
+    terms = _coerce_terms(case["terms"], case.get("ctype"))
     return dict(terms) if case["type"] == "dict" else cls_of(case["type"])(terms)
 
 
@@ -373,6 +386,16 @@ def _gen_normalize(form):
                     yield {"form": form, "type": T, "terms": terms, "value": 3}
         rng = ctx.rng("c18.normalize." + form)
         n = ctx.pick(300, 6000)
+        # coefficients of other real types (Fraction, numpy scalars, and the numpy mix that subvalue leaves behind)
+        for ctype in ("fraction", "np_int64", "np_float64", "np_float32", "mixed_np"):
+            for T in types:
+                labels = _pool(rng, T, 2)
+                yield {"form": form, "type": T, "terms": {(labels[0],): -4, (labels[0], labels[1]): 1, (): 0.5},
+                       "value": None, "ctype": ctype}
+                for _ in range(ctx.pick(4, 60)):
+                    terms = _rand_terms(rng, labels, T, coefs=[-7, -2, -1, 1, 2, 0.5, 3, 4, 0.25, 6])
+                    if any(terms.values()):
+                        yield {"form": form, "type": T, "terms": terms, "value": rng.choice([None] + VALUES), "ctype": ctype}
         for T in types:
             for _ in range(n):
                 labels = _pool(rng, T, rng.choice([1, 2, 3]))
